@@ -26,6 +26,7 @@ class Ev:
     b: object = None
     c: object = None
     body: list["Path"] | None = None
+    cov: tuple = ()
 
     def __repr__(self) -> str:  # pragma: no cover - debugging aid
         return f"Ev({self.kind}@{self.line} {show(self.a) if isinstance(self.a, tuple) else self.a})"
@@ -59,6 +60,7 @@ class Summary:
         self.paths = paths
         self.low = low
         self.truncated = truncated
+        self.syn: dict[int, tuple] = {}
 
     # ------------------------------------------------------------------ traversal
     def walk(self) -> Iterator[tuple[Ev, Ctx]]:
@@ -220,6 +222,12 @@ class _Builder:
         self.fn = fn
         self.low = Lowering(model, fn, fn.module)
         self.truncated = False
+        self.cov: tuple = ()  # stack of handler-class tuples of the enclosing try bodies
+
+    def E(self, *a, **k) -> Ev:
+        ev = Ev(*a, **k)
+        ev.cov = self.cov
+        return ev
 
     def run(self) -> Summary:
         env: dict = {}
@@ -230,7 +238,58 @@ class _Builder:
         if body and isinstance(body[0], ast.Expr) and isinstance(body[0].value, ast.Constant) and isinstance(body[0].value.value, str):
             body = body[1:]
         paths = self.block(body, [start])
-        return Summary(self.fn, paths, self.low, self.truncated)
+        summ = Summary(self.fn, paths, self.low, self.truncated)
+        summ.syn = self.syntactic_terms(body)
+        return summ
+
+    def syntactic_terms(self, body: list[ast.stmt]) -> dict[int, tuple]:
+        """line -> terms evaluated *by that statement itself* (locals opaque, no copy propagation).
+
+        Effect analyses (MODE, ORDER) use these so that a call is attributed to the statement
+        that syntactically contains it and not to later uses of its copy-propagated value.
+        """
+        shadow: dict = {}
+        for n in ast.walk(self.fn.node):
+            if isinstance(n, ast.Name) and isinstance(n.ctx, ast.Store):
+                shadow[n.id] = ("lv", n.id)
+            elif isinstance(n, (ast.FunctionDef, ast.AsyncFunctionDef)) and n is not self.fn.node:
+                shadow[n.name] = ("lv", n.name)
+        for p in self.fn.params:
+            shadow[p.name] = ("param", p.name)
+        low = Lowering(self.model, self.fn, self.fn.module)
+        low.local_imports = self.low.local_imports
+        out: dict[int, list] = {}
+
+        def exprs_of(st: ast.stmt) -> list[ast.expr]:
+            if isinstance(st, (ast.If, ast.While)):
+                return [st.test]
+            if isinstance(st, (ast.For, ast.AsyncFor)):
+                return [st.iter]
+            if isinstance(st, (ast.With, ast.AsyncWith)):
+                return [i.context_expr for i in st.items]
+            if isinstance(st, (ast.Try, ast.FunctionDef, ast.AsyncFunctionDef, ast.ClassDef)):
+                return []
+            return [c for c in ast.iter_child_nodes(st) if isinstance(c, ast.expr)]
+
+        def visit(stmts: list[ast.stmt]) -> None:
+            for st in stmts:
+                for e in exprs_of(st):
+                    if isinstance(e, ast.Name):
+                        continue
+                    try:
+                        t = low.expr(e, dict(shadow))
+                    except Exception:  # noqa: BLE001
+                        continue
+                    out.setdefault(st.lineno, []).append(t)
+                for fld in ("body", "orelse", "finalbody"):
+                    sub = getattr(st, fld, None)
+                    if isinstance(sub, list) and sub and isinstance(sub[0], ast.stmt) and not isinstance(st, (ast.FunctionDef, ast.AsyncFunctionDef, ast.ClassDef)):
+                        visit(sub)
+                for h in getattr(st, "handlers", []) or []:
+                    visit(h.body)
+
+        visit(body)
+        return {k: tuple(v) for k, v in out.items()}
 
     # ------------------------------------------------------------------ blocks
     def block(self, stmts: list[ast.stmt], paths: list[Path]) -> list[Path]:
@@ -250,7 +309,7 @@ class _Builder:
     def stmt(self, st: ast.stmt, p: Path) -> list[Path]:
         m = getattr(self, "s_" + type(st).__name__, None)
         if m is None:
-            p.events.append(Ev("unknown", st.lineno, ("unk", type(st).__name__)))
+            p.events.append(self.E("unknown", st.lineno, ("unk", type(st).__name__)))
             return [p]
         return m(st, p)
 
@@ -264,12 +323,12 @@ class _Builder:
     s_Global = s_Nonlocal = s_Pass
 
     def s_Assert(self, st, p):
-        p.events.append(Ev("assert", st.lineno, self.ex(st.test, p)))
+        p.events.append(self.E("assert", st.lineno, self.ex(st.test, p)))
         return [p]
 
     def s_Delete(self, st, p):
         for t in st.targets:
-            p.events.append(Ev("delete", st.lineno, self.ex(t, p)))
+            p.events.append(self.E("delete", st.lineno, self.ex(t, p)))
         return [p]
 
     def s_Import(self, st, p):
@@ -296,18 +355,18 @@ class _Builder:
             return [p]
         t = self.ex(v, p)
         if op(t) in ("yield", "yieldfrom"):
-            p.events.append(Ev("yield", st.lineno, t[1]))
+            p.events.append(self.E("yield", st.lineno, t[1]))
         else:
-            p.events.append(Ev("expr", st.lineno, t))
+            p.events.append(self.E("expr", st.lineno, t))
         return [p]
 
     def s_Return(self, st, p):
-        p.out = ("return", self.ex(st.value, p) if st.value is not None else NONE, st.lineno)
+        p.out = ("return", self.ex(st.value, p) if st.value is not None else NONE, st.lineno, self.cov)
         return [p]
 
     def s_Raise(self, st, p):
         t = self.ex(st.exc, p) if st.exc is not None else ("reraise",)
-        p.out = ("raise", t, st.lineno)
+        p.out = ("raise", t, st.lineno, self.cov)
         return [p]
 
     def s_Break(self, st, p):
@@ -336,17 +395,17 @@ class _Builder:
     def assign(self, target: ast.expr, value: tuple, p: Path, line: int) -> None:
         if isinstance(target, ast.Name):
             p.env[target.id] = value
-            p.events.append(Ev("bind", line, target.id, value))
+            p.events.append(self.E("bind", line, target.id, value))
         elif isinstance(target, (ast.Tuple, ast.List)):
             before = dict(p.env)
             self.low.bind_target(target, p.env, value)
             for n in ast.walk(target):
                 if isinstance(n, ast.Name):
-                    p.events.append(Ev("bind", line, n.id, p.env.get(n.id)))
+                    p.events.append(self.E("bind", line, n.id, p.env.get(n.id)))
                 elif isinstance(n, (ast.Attribute, ast.Subscript)):
-                    p.events.append(Ev("store", line, self.low.expr(n, before), ("unk", "destructured")))
+                    p.events.append(self.E("store", line, self.low.expr(n, before), ("unk", "destructured")))
         elif isinstance(target, (ast.Attribute, ast.Subscript)):
-            p.events.append(Ev("store", line, self.ex(target, p), value))
+            p.events.append(self.E("store", line, self.ex(target, p), value))
         elif isinstance(target, ast.Starred):
             self.assign(target.value, value, p, line)
 
@@ -376,7 +435,7 @@ class _Builder:
         q = nested.qualname if nested is not None else f"{self.fn.qualname}.{st.name}"
         p.env[st.name] = ("closure", q)
         decos = [self.ex(d, p) for d in st.decorator_list]
-        p.events.append(Ev("def", st.lineno, ("closure", q), tuple(decos)))
+        p.events.append(self.E("def", st.lineno, ("closure", q), tuple(decos)))
         return [p]
 
     s_AsyncFunctionDef = s_FunctionDef
@@ -396,8 +455,8 @@ class _Builder:
             if op(test) == "not":
                 pol = not pol
             test = test[1]
-        a.events.append(Ev("guard", st.lineno, test, pol))
-        b.events.append(Ev("guard", st.lineno, test, not pol))
+        a.events.append(self.E("guard", st.lineno, test, pol))
+        b.events.append(self.E("guard", st.lineno, test, not pol))
         return self.block(st.body, [a]) + self.block(st.orelse, [b])
 
     def _assigned_names(self, stmts: list[ast.stmt]) -> set[str]:
@@ -418,7 +477,7 @@ class _Builder:
                 env[n] = ("phi", n, loop_id)
         tgt = self.low.bind_target(st.target, env, None)
         body_paths = self.block(st.body, [Path([], env, None)])
-        ev = Ev("loop", st.lineno, tgt, it, loop_id, body_paths)
+        ev = self.E("loop", st.lineno, tgt, it, loop_id, body_paths)
         p.events.append(ev)
         for n in assigned | {x.id for x in ast.walk(st.target) if isinstance(x, ast.Name)}:
             p.env[n] = ("phi", n, loop_id)
@@ -438,7 +497,7 @@ class _Builder:
                 env[n] = ("phi", n, loop_id)
         test = self.low.expr(st.test, env)
         body_paths = self.block(st.body, [Path([], env, None)])
-        p.events.append(Ev("while", st.lineno, test, None, loop_id, body_paths))
+        p.events.append(self.E("while", st.lineno, test, None, loop_id, body_paths))
         for n in assigned:
             p.env[n] = ("phi", n, loop_id)
         if st.orelse:
@@ -454,19 +513,31 @@ class _Builder:
                 bv = ("ctx", self.low.fresh(), ctx)
                 if isinstance(item.optional_vars, ast.Name):
                     p.env[item.optional_vars.id] = bv
-            p.events.append(Ev("with", st.lineno, ctx, bv))
+            p.events.append(self.E("with", st.lineno, ctx, bv))
             n += 1
         out = self.block(st.body, [p])
         for q in out:
             for _ in range(n):
-                q.events.append(Ev("endwith", getattr(st, "end_lineno", st.lineno)))
+                q.events.append(self.E("endwith", getattr(st, "end_lineno", st.lineno)))
         return out
 
     s_AsyncWith = s_With
 
     def s_Try(self, st, p):
         entry = p.fork()
+        names_all = []
+        for h in st.handlers:
+            if h.type is None:
+                names_all.append("BaseException")
+            elif isinstance(h.type, ast.Tuple):
+                names_all.extend(ast.unparse(x) for x in h.type.elts)
+            else:
+                names_all.append(ast.unparse(h.type))
+        saved_cov = self.cov
+        if st.handlers:
+            self.cov = saved_cov + (tuple(names_all),)
         normal = self.block(st.body, [p])
+        self.cov = saved_cov
         assigned = self._assigned_names(st.body)
         out: list[Path] = []
         fall = [q for q in normal if q.out is None]
@@ -490,7 +561,7 @@ class _Builder:
             if h.name:
                 bv = ("bv", self.low.fresh(), h.name)
                 q.env[h.name] = bv
-            q.events.append(Ev("except", h.lineno, names, bv, st.lineno))
+            q.events.append(self.E("except", h.lineno, names, bv, st.lineno))
             out.extend(self.block(h.body, [q]))
         if st.finalbody:
             res = []
